@@ -333,7 +333,8 @@ class NumpyDataWrapper(SourceDataWrapper):
             A structured numpy array, containing the required chunks of all the relevant data sets from the source data.
         """
 
-        if self._dtype == self._data_source.dtype:
+        # the rows of the source can be handed out as they are only if every field is also read under its own name
+        if self._dtype == self._data_source.dtype and all(k == v for k, v in self._mapping.items()):
             if stop is None:
                 stop = self._n_rows
             # start and stop are counted from the first row to be loaded (from_idx), like in the general case
